@@ -88,7 +88,9 @@ def cleanup_scratch() -> None:
 
 
 def enc_content(c):
-    """File content for JSON: str stays str, bytes become {"b64":...}."""
+    """File content for JSON: str stays str, bytes become {"b64":...}, {"symlink": target} passes through."""
+    if isinstance(c, dict):
+        return c
     if isinstance(c, bytes):
         try:
             s = c.decode("utf-8")
